@@ -87,6 +87,27 @@ func (e *Engine) BuildVC(fn *ssa.Function) (vc *FnVC) {
 	if sp != nil {
 		fr.lets = vc.declareLets(fr, sp, st, fr.params)
 	}
+	// invariants of package-level state (written only by initialisers: C16 global-store scan)
+	for _, gi := range e.db.GlobalInvs {
+		pkgName := strings.SplitN(gi.Name, ".", 2)[0]
+		gfr := &frame{fn: fn, names: map[string]*ssa.Alloc{}}
+		c := vc.newCtx(gfr, st, st, nil)
+		if p := e.byName[pkgName]; p != nil {
+			c.pkg = p.Pkg
+		}
+		func() {
+			defer func() {
+				if r := recover(); r != nil {
+					if _, ok := r.(evalErr); !ok {
+						panic(r)
+					}
+				}
+			}()
+			t := c.evalB(gi.E)
+			vc.assume("true", t)
+			vc.assumption("global invariant " + gi.Name + ": " + gi.Src + " (package-level variable written only by its initialiser)")
+		}()
+	}
 	// preconditions
 	if sp != nil {
 		for _, c := range sp.Clauses {
@@ -266,6 +287,8 @@ func (vc *FnVC) frameCheck(fr *frame, fin *state, sp *FuncSpec, vars map[string]
 						for _, h := range vc.eng.heapNames() {
 							add(h, "*")
 						}
+					} else if _, ok := vc.eng.db.GhostVars[x.Name]; ok {
+						add("G:ghost."+x.Name, "*")
 					} else if c.pkg != nil {
 						if v, ok := c.pkg.Scope().Lookup(x.Name).(*types.Var); ok {
 							if g, ok := vc.eng.globalOf(v); ok {
